@@ -197,6 +197,8 @@ def draw_pf(rng, fspec):
     """A frac-face pressure inside the table and below p_i."""
     p_lo, p_i = fspec["_p_lo"], fspec["p_i"]
     u = rng.random()
+    if u < 0.03:
+        return float(p_i)            # no drawdown at all: frac-face pressure equals initial pressure
     if u < 0.15:
         r = rng.choice([0.99, 0.995, 0.999])
         pf = max(p_lo, r * p_i)
